@@ -476,6 +476,37 @@ def run(chk):
         ok = var in pins and pins[var][1] == "1" and first_numeric is not None and pins[var][0] < first_numeric
         r2.require(ok, f"{hmod.name}|pin:{var}", hmod.rel, f"{var} must be set to '1' before the first numeric import of hourly/model.py (found {pins.get(var)}, first numeric import at statement {first_numeric})")
 
+    # no computation whose result depends on the number of worker threads: compiled kernels are sequential (a parallel reduction sums its
+    # chunks in an order that follows the thread count), no thread / process pools, no n_jobs other than 1
+    n_jit = 0
+    # helpers the transparency pre-pass inlined into their callers are examined too (their decorators say how they are compiled)
+    decorated = [(fi.key, fi.qualname, fi.where(), fi.node) for fi in chk.repo.all_functions()]
+    for modname, nodes in chk.repo.removed_helpers.items():
+        for nd in nodes:
+            if isinstance(nd, (ast.FunctionDef, ast.AsyncFunctionDef)):
+                decorated.append((f"{modname}:{nd.name}", nd.name, f"{modname.replace('.', '/')}.py:{getattr(nd, 'lineno', 0)}", nd))
+    for fkey, fq, fwhere, fnode in decorated:
+        for d in fnode.decorator_list:
+            if isinstance(d, ast.Call) and unparse(d.func).split(".")[-1] in ("jit", "njit", "vectorize", "guvectorize", "stencil"):
+                n_jit += 1
+                par = [k for k in d.keywords if (k.arg == "parallel" and not (isinstance(k.value, ast.Constant) and k.value.value is False))
+                       or (k.arg == "target" and isinstance(k.value, ast.Constant) and k.value.value in ("parallel", "cuda"))]
+                r2.require(not par, f"{fkey}|sequential-kernel", fwhere, f"{fq} is compiled with `{unparse(par[0]) if par else ''}`: reductions are then summed per worker chunk, "
+                           "so the last bits of the result - and with them optimiser decisions - depend on the number of worker threads")
+        for c in calls_in(fnode):
+            fn = unparse(c.func)
+            short = fn.split(".")[-1]
+            if short == "prange":
+                r2.require(False, f"{fkey}|prange", fwhere, f"{fq} iterates with prange: the iteration space is split over the worker threads")
+            if short in ("ThreadPoolExecutor", "ProcessPoolExecutor", "Pool", "ThreadPool", "Parallel", "set_num_threads"):
+                r2.require(False, f"{fkey}|pool:{short}", fwhere, f"{fq} uses `{fn}`: work (and the order results are combined in) is spread over a worker pool")
+            nj = kwarg(c, "n_jobs")
+            if nj is not None and not (isinstance(nj, ast.Constant) and nj.value in (None, 1)):
+                r2.require(False, f"{fkey}|n_jobs:{short}", fwhere, f"{fq}: `{short}(..., n_jobs={unparse(nj)})` runs on a variable number of workers")
+    if n_jit < 5:
+        raise AnalysisError(f"thread-count inventory: only {n_jit} compiled kernels found (anchor changed)")
+    r2.inst(f"package|compiled-kernels-sequential[{n_jit}]", {"compiled_kernels_examined": n_jit})
+
     # ------------------------------------------------------------------ R03.3
     OPT = "opendsm.eemeter.models.daily.optimize"
     dec = chk.repo.func(OPT, "obj_fcn_dec")
